@@ -59,6 +59,7 @@ def body(ck):
     ck.assumptions = ["stub env/policy draws tabulated per key path (jr.split modelled as paths)", "float64 exact on dyadic tables",
                       "filter_scan / filter_cond / filter_vmap of lerax.utils and equinox behave as scan / cond / map"]
     ck.build_coq(); ck.compile_props()
+    ck.kernel_link()   # the on-policy step regenerated from the source = OnPolicy.op_step (coq/link/C04_link.v)
     quick = ck.tier == "quick"
     n = 70 if quick else 700
     cases, cj, metas = [], [], []
